@@ -49,9 +49,9 @@ RUN_ONLY = ('supFail', 'sigterm')
 # (the on_output event of a CBlock evaluated by the simulator)
 FAMILIES = {'g': RuntimeError, 'c': edzed.EdzedCircuitError, 'i': edzed.EdzedInvalidState,
             'u': edzed.EdzedUnknownEvent, 't': TypeError}
-IMMEDIATE_FAM = tuple('handlerErr' + f.upper() for f in 'ciut')
+IMMEDIATE_FAM = tuple('handlerErr' + f.upper() for f in 'ciut') + ('ctrlAbortText',)
 DEFERRED_FAM = tuple('armCalcHandler' + f.upper() for f in 'ciut')
-FATAL = ('handlerErr', 'ctrlAbort', 'ctrlShutdown', 'abortX', 'abortC', 'armCalc', 'armCalcHandler',
+FATAL = ('handlerErr', 'ctrlAbort', 'ctrlAbortText', 'ctrlShutdown', 'abortX', 'abortC', 'armCalc', 'armCalcHandler',
          'rawCancel', 'monTrigger', 'shutdownTask', 'supFail', 'sigterm')
 EARLY_ID = 950
 
@@ -86,7 +86,7 @@ def _number(instants):
                 row.append([base, next(k), fam])
             elif kind == 'supFail':
                 row.append([kind, None, next(k)])     # index assigned below
-            elif kind in ('paramErr', 'unknownEvt', 'nestedUnknown', 'fsmSelfUnknown', 'ctrlShutdown', 'abortC', 'rawCancel', 'shutdownTask', 'sigterm'):
+            elif kind in ('paramErr', 'unknownEvt', 'nestedUnknown', 'fsmSelfUnknown', 'ctrlShutdown', 'ctrlAbortText', 'abortC', 'rawCancel', 'shutdownTask', 'sigterm'):
                 row.append([kind])
             else:
                 row.append([kind, next(k)])
@@ -242,6 +242,8 @@ def enc_err(e):
             return 'ni'
         if 'during handling of event' in msg:
             return 'w' + cid
+        if 'error reported by' in msg and cause is None:
+            return 'rt'         # the reported error was not an exception: no __cause__
         if 'error reported by' in msg:
             return 'r' + cid
         return 'E:' + msg[:60]
@@ -474,6 +476,9 @@ class Rec:
         self.aborts = []       # exceptions passed to Circuit.abort(), in order
         self.started = False
         self.after_fire = []   # Circuit.error right after each fired source
+        # the `error` item of a 'ctrlAbortText' event: a string, the default (item missing), or a BaseException that is
+        # not an Exception -- none of them becomes the `__cause__`
+        self.text_report = 'reported text'
 
     def add(self, line, reply, circuit):
         self.lines.append('errreg op ' + line)
@@ -498,6 +503,8 @@ def fire(rec, ctx, s, sups):
             edzed.ExtEvent(ctx['nu_a'], 'put').send(ctx['nu_n'])
         elif kind == 'fsmSelfUnknown':
             edzed.ExtEvent(ctx['fsm'], 'go').send()
+        elif kind == 'ctrlAbortText':
+            edzed.ExtEvent('_ctrl', 'abort').send(error=rec.text_report)
         elif kind == 'ctrlAbort':
             edzed.ExtEvent('_ctrl', 'abort').send(error=RuntimeError(f'src{s[1]}'))
         elif kind == 'ctrlShutdown':
@@ -718,6 +725,8 @@ def expected_winner(scn):
     for inst in scn['ops']:
         imm = {'handlerErr': 'w', 'ctrlAbort': 'r', 'abortX': 'x'}
         for s in inst:
+            if s[0] == 'ctrlAbortText':
+                return 'rt'
             if s[0] == 'handlerErr' and s[2] == 'u':
                 continue        # the handler itself says "unknown event": reported to the caller only
             if s[0] in imm:
